@@ -178,6 +178,7 @@ inline bool genSentence(Choices &c, const Gram &g, const std::vector<int> &ml, i
 inline std::vector<int> genInputIdx(Choices &c, const Gram &g, const std::vector<int> &ml, int maxLen, int kind) {
   std::vector<int> w;
   int nDecl = g.nT - 1; // without `error'
+  if (nDecl <= 0) return w; // no declared terminal: only the empty input exists
   auto rndTerm = [&]() { int t = c.upto(nDecl - 1); return t >= g.errT ? t + 1 : t; };
   if (kind <= 1) {
     if (!genSentence(c, g, ml, g.start, maxLen, 0, w)) { w.clear(); kind = 2; }
